@@ -249,7 +249,7 @@ pub fn run(plan: Plan, shards: usize, outdir: &str, replay: Option<String>) {
     } else {
         for ti in 0..plan.trees {
             let n = 1 + (plan.max_nodes - 1) * (ti + 1) / plan.trees.max(1);
-            let n = r.range(1, n.max(1));
+            let n = r.range((n.max(1) + 1) / 2, n.max(1));
             let npanic = if plan.panics { r.range(1, 2) } else { 0 };
             let consistent = plan.panics || !r.chance(1, 6);
             let tree = gen_tree(&mut r, n, npanic, consistent);
